@@ -10,7 +10,7 @@ From TS Require Import Model.Str Model.Outcome Model.Unicode Model.Syntax Model.
 From TS Require Import Model.TopsortAlgo Model.Topsort Model.Lang.Common.
 From TS Require Import Model.Lang.TypeScript Model.Lang.Kotlin Model.Lang.Swift Model.Lang.Scala Model.Lang.Go Model.Lang.Python.
 From TS Require Import Spec.Lexers Spec.C15Spec Spec.C15Render.
-From TS Require Proofs.C15_Replace Proofs.C15 Proofs.C15_Render Proofs.C15_Kotlin Proofs.C15_Go Proofs.C15_Swift Proofs.C15_Python Proofs.C15_TypeScript.
+From TS Require Proofs.C15_Front Proofs.C15_Replace Proofs.C15 Proofs.C15_Render Proofs.C15_Kotlin Proofs.C15_Go Proofs.C15_Swift Proofs.C15_Python Proofs.C15_TypeScript.
 Import ListNotations.
 
 (* ---- front end (after the repair of parse_comment_attrs): a doc attribute with value v - which is what `/// v`,
@@ -370,3 +370,40 @@ Theorem C15_ts_file : forall (uc : unicode) (cfg : ts_config),
     c15_contained C15ts LCode (mark (c15_file_pieces C15ts parts)) = true.
 Proof. exact Proofs.C15_TypeScript.C15_ts_file. Qed.
 Print Assumptions C15_ts_file.
+
+(* ======================= front end to IR: parsed items =======================
+   Every doc string of every item the model's four item parsers return (parse_struct - also a tuple struct turned
+   alias and a serialized_as override -, parse_enum, parse_type_alias, parse_const) is a carried line of a doc
+   attribute of the item or of one of its members: free of LF and CR.  So on parsed items the `contained iff all doc
+   strings are safe_<l>` statements above are `contained`. *)
+Theorem C15_parsed_struct_line_free : forall uc tstr T attrs ident gens fs it,
+  parse_struct uc tstr T attrs ident gens fs = Ok it ->
+  Forall (fun d => safe_line eol_lf_cr d = true) (c15_item_docs it).
+Proof. exact Proofs.C15_Front.c15_parse_struct_free. Qed.
+Print Assumptions C15_parsed_struct_line_free.
+Theorem C15_parsed_enum_line_free : forall uc tstr T attrs ident gens vs it,
+  parse_enum uc tstr T attrs ident gens vs = Ok it ->
+  Forall (fun d => safe_line eol_lf_cr d = true) (c15_item_docs it).
+Proof. exact Proofs.C15_Front.c15_parse_enum_free. Qed.
+Print Assumptions C15_parsed_enum_line_free.
+Theorem C15_parsed_alias_line_free : forall uc tstr attrs ident gens t it,
+  parse_type_alias uc tstr attrs ident gens t = Ok it ->
+  Forall (fun d => safe_line eol_lf_cr d = true) (c15_item_docs it).
+Proof. exact Proofs.C15_Front.c15_parse_type_alias_free. Qed.
+Print Assumptions C15_parsed_alias_line_free.
+
+(* ---- Kotlin, one item whose doc strings are free of line breaks (every parsed item), on the input class of C15_kt_item:
+   the printed text - helper data classes under their generated comments included - is contained ---- *)
+Theorem C15_kt_item_line_free : forall (cfg : kt_config),
+  c15_plain C15kt (kt_prefix cfg) = true ->
+  c15_mappings_plain C15kt (kt_type_mappings cfg) = true ->
+  forall it text,
+  c15_item_strict C15kt Kotlin it = true ->
+  Forall (fun d => safe_line eol_lf_cr d = true) (c15_item_docs it) ->
+  kt_write_item cfg it = Ok text ->
+  exists parts,
+    text = text_of (c15_file_pieces C15kt parts) /\
+    docs_of (c15_file_pieces C15kt parts) = c15_item_docs_helpers_first it /\
+    c15_contained C15kt LCode (mark (c15_file_pieces C15kt parts)) = true.
+Proof. exact Proofs.C15_Front.C15_kt_item_line_free. Qed.
+Print Assumptions C15_kt_item_line_free.
